@@ -85,10 +85,10 @@ Proof.
 Qed.
 
 (* ---- items ---- *)
-Lemma item_frame_ok sps pps a it : wf_hitem it = true ->
-  frame_pid_ok (item_frame sps pps a it) = true /\ has_payload (item_frame sps pps a it) = true.
+Lemma item_frame_ok a it : wf_hitem it = true ->
+  frame_pid_ok (item_frame a it) = true /\ has_payload (item_frame a it) = true.
 Proof.
-  destruct it as [c | pts g]; cbn [wf_hitem item_frame].
+  destruct it as [[sps pps c] | pts g]; cbn [wf_hitem item_frame a_sps a_pps a_c].
   - unfold wf_hvideo. intros H. apply andb_true_iff in H. destruct H as (_ & H).
     destruct (c_pay c) as [| b0 pay] eqn:E; [discriminate |].
     split; [reflexivity |]. unfold has_payload, video_frame. cbn [f_pay]. rewrite E. reflexivity.
@@ -116,29 +116,29 @@ Proof.
 Qed.
 
 (* a segment is a Writer stream *)
-Lemma segment_units sps pps a seg : forallb wf_hitem seg = true ->
-  exists us, ts_units (ts_write_all (map (item_frame sps pps a) seg)) = Some (upat :: upmt :: us) /\
-             units_ok unit_ok (map (item_frame sps pps a) seg) us = true.
+Lemma segment_units a seg : forallb wf_hitem seg = true ->
+  exists us, ts_units (ts_write_all (map (item_frame a) seg)) = Some (upat :: upmt :: us) /\
+             units_ok unit_ok (map (item_frame a) seg) us = true.
 Proof.
-  intros Hwf. set (fs := map (item_frame sps pps a) seg).
+  intros Hwf. set (fs := map (item_frame a) seg).
   assert (Hall : forallb frame_pid_ok fs = true /\ forallb has_payload fs = true).
   { subst fs. induction seg as [| it seg IH]; [split; reflexivity |].
     cbn [forallb map] in *. apply andb_true_iff in Hwf. destruct Hwf as (Hit & Hwf).
-    destruct (item_frame_ok sps pps a it Hit) as (H1 & H2). destruct (IH Hwf) as (H3 & H4).
+    destruct (item_frame_ok a it Hit) as (H1 & H2). destruct (IH Hwf) as (H3 & H4).
     rewrite H1, H2, H3, H4. split; reflexivity. }
   destruct Hall as (Hpid & Hpay).
   destruct (ts_stream_spec fs Hpid) as (ks & us & _ & _ & Hu & Hok).
   exists us. split; [exact Hu |]. rewrite (filter_id _ _ Hpay) in Hok. exact Hok.
 Qed.
 
-Lemma plan_units sps pps a plan : forallb (forallb wf_hitem) plan = true ->
-  exists us, collect_units (hls_model sps pps a plan) = Some us /\
-             units_ok unit_ok (map (item_frame sps pps a) (concat plan)) us = true.
+Lemma plan_units a plan : forallb (forallb wf_hitem) plan = true ->
+  exists us, collect_units (hls_model a plan) = Some us /\
+             units_ok unit_ok (map (item_frame a) (concat plan)) us = true.
 Proof.
   induction plan as [| seg plan IH]; intros Hwf.
   - exists []. split; reflexivity.
   - cbn [forallb] in Hwf. apply andb_true_iff in Hwf. destruct Hwf as (Hseg & Hwf).
-    destruct (segment_units sps pps a seg Hseg) as (us & Hu & Hok).
+    destruct (segment_units a seg Hseg) as (us & Hu & Hok).
     destruct (IH Hwf) as (more & Hmore & Hokm).
     exists (us ++ more). unfold hls_model in *. cbn [map collect_units concat].
     rewrite Hu, psi_units_ok, Hmore. split; [reflexivity |].
@@ -146,11 +146,11 @@ Proof.
 Qed.
 
 (* the walk over the units against the per-medium source lists *)
-Lemma walk_items sps pps a : asc_plain a = true -> forall its us V A,
+Lemma walk_items a : asc_plain a = true -> forall its us V A,
   forallb wf_hitem its = true ->
-  units_ok unit_ok (map (item_frame sps pps a) its) us = true ->
-  hls_walk sps pps a us (flat_map item_videos its ++ V) (flat_map item_audios its ++ A) =
-  hls_walk sps pps a [] V A.
+  units_ok unit_ok (map (item_frame a) its) us = true ->
+  hls_walk a us (flat_map item_videos its ++ V) (flat_map item_audios its ++ A) =
+  hls_walk a [] V A.
 Proof.
   intros Ha. induction its as [| it its IH]; intros us V A Hwf Hok.
   - destruct us; [reflexivity | discriminate].
@@ -158,13 +158,13 @@ Proof.
     cbn [forallb] in Hwf. apply andb_true_iff in Hwf. destruct Hwf as (Hit & Hwf).
     cbn [map units_ok] in Hok. apply andb_true_iff in Hok. destruct Hok as (Hu & Hok).
     specialize (IH us V A Hwf Hok).
-    destruct it as [c | pts g]; cbn [flat_map item_videos item_audios app].
+    destruct it as [[sps pps c] | pts g]; cbn [flat_map item_videos item_audios app].
     + (* video *)
-      cbn [wf_hitem] in Hit. unfold wf_hvideo in Hit.
+      cbn [wf_hitem a_c] in Hit. unfold wf_hvideo in Hit.
       apply andb_true_iff in Hit. destruct Hit as (Hit & Ht).
       apply andb_true_iff in Hit. destruct Hit as (Hit & _).
       apply andb_true_iff in Hit. destruct Hit as (Hv & _).
-      cbn [item_frame] in Hu.
+      cbn [item_frame a_sps a_pps a_c] in Hu.
       destruct (nal_type (c_pay c)) as [t |] eqn:Et; [| discriminate].
       apply negb_true_iff in Ht.
       assert (Hpid : u_pid u = TS_VIDEO_PID).
@@ -172,7 +172,7 @@ Proof.
         apply andb_true_iff in Hu. destruct Hu as (Hu & _). apply andb_true_iff in Hu. destruct Hu as (Hu & _).
         apply andb_true_iff in Hu. destruct Hu as (Hu & _). apply Z.eqb_eq. exact Hu. }
       cbn [hls_walk]. rewrite Hpid, Z.eqb_refl.
-      unfold hls_video_unit_ok. rewrite Hv.
+      unfold hls_video_unit_ok, asrc_unit_ok. cbn [a_sps a_pps a_c]. rewrite Hv.
       rewrite (video_unit_ok sps pps a c t u Hv Et Ht Hu). cbn [andb]. exact IH.
     + (* audio group *)
       cbn [item_frame] in Hu. rewrite <- app_assoc.
@@ -181,16 +181,60 @@ Proof.
       rewrite Z.eqb_refl, Htake. exact IH.
 Qed.
 
-Theorem hls_passes sps pps a plan : wf_hplan a plan = true ->
-  ok_hls sps pps a (plan_videos plan) (plan_audios plan) (hls_model sps pps a plan) = true.
+Theorem hls_passes a plan : wf_hplan a plan = true ->
+  ok_hls a (plan_videos plan) (plan_audios plan) (hls_model a plan) = true.
 Proof.
   unfold wf_hplan. intros H. apply andb_true_iff in H. destruct H as (Ha & Hwf).
-  destruct (plan_units sps pps a plan Hwf) as (us & Hc & Hok).
+  destruct (plan_units a plan Hwf) as (us & Hc & Hok).
   unfold ok_hls. rewrite Hc.
   assert (Hits : forallb wf_hitem (concat plan) = true).
   { clear Hc Hok. induction plan as [| seg plan IH]; [reflexivity |].
     cbn [forallb concat] in *. apply andb_true_iff in Hwf. destruct Hwf as (H1 & H2).
     rewrite forallb_app, H1, (IH H2). reflexivity. }
-  pose proof (walk_items sps pps a Ha (concat plan) us [] [] Hits Hok) as Hw.
+  pose proof (walk_items a Ha (concat plan) us [] [] Hits Hok) as Hw.
   rewrite !app_nil_r in Hw. exact Hw.
+Qed.
+
+(* the elementary-stream-only oracle is a weakening of ok_hls on audio-less input *)
+Lemma src_unit_es a af u : c_video (a_c af) = true -> asrc_unit_ok a af u = true -> es_video_unit_ok af u = true.
+Proof.
+  intros Hv H. unfold asrc_unit_ok, src_unit_ok in H. rewrite Hv in H. unfold es_video_unit_ok.
+  destruct (nal_type (c_pay (a_c af))) as [t |]; [| discriminate].
+  apply andb_true_iff in H. destruct H as (Hfl & H).
+  unfold unit_flags_ok in Hfl.
+  apply andb_true_iff in Hfl. destruct Hfl as (Hfl & Hpcr).
+  apply andb_true_iff in Hfl. destruct Hfl as (Hpid & Hrai).
+  rewrite Hpid, Hrai. cbn [andb].
+  destruct (parse_pes (u_data u)) as [p |]; [| discriminate].
+  apply andb_true_iff in H. destruct H as (Hst & Hb). rewrite Hb.
+  unfold pes_stamps_ok in Hst. apply andb_true_iff in Hst. destruct Hst as (Hst & _).
+  apply andb_true_iff in Hst. destruct Hst as (Hs & _).
+  change (TS_VIDEO_AVC mod 256) with TS_VIDEO_AVC in Hs. rewrite Hs.
+  destruct (t =? 5); [| reflexivity].
+  destruct (u_pcr u); [reflexivity | discriminate].
+Qed.
+
+Lemma walk_es a : forall us vids, hls_walk a us vids [] = true -> units_ok es_video_unit_ok vids us = true.
+Proof.
+  induction us as [| u us IH]; intros vids H.
+  - destruct vids; [reflexivity | discriminate].
+  - cbn [hls_walk] in H. destruct (u_pid u =? TS_VIDEO_PID).
+    + destruct vids as [| af vids]; [discriminate |].
+      apply andb_true_iff in H. destruct H as (Hu & H).
+      unfold hls_video_unit_ok in Hu. apply andb_true_iff in Hu. destruct Hu as (Hv & Hu).
+      cbn [units_ok]. rewrite (src_unit_es a af u Hv Hu), (IH vids H). reflexivity.
+    + destruct (u_pid u =? TS_AUDIO_PID); [| discriminate].
+      unfold audio_unit_take in H.
+      destruct (negb (unit_flags_ok TS_AUDIO_PID 0 false u)); [discriminate |].
+      destruct (parse_pes (u_data u)) as [p |]; [| discriminate].
+      destruct (negb ((p_sid p =? TS_AUDIO_AAC) && optz_eqb (p_dts p) None)); [discriminate |].
+      destruct (adts_parse (p_payload p)) as [[| fr frs] |]; discriminate.
+Qed.
+
+Theorem hls_es_passes a plan : wf_hplan a plan = true -> plan_audios plan = [] ->
+  ok_hls_es (plan_videos plan) (hls_model a plan) = true.
+Proof.
+  intros Hwf Hno. pose proof (hls_passes a plan Hwf) as H. rewrite Hno in H.
+  unfold ok_hls in H. unfold ok_hls_es. destruct (collect_units (hls_model a plan)); [| discriminate].
+  apply (walk_es a). exact H.
 Qed.
